@@ -95,12 +95,13 @@ type Prog struct {
 	recCache    map[*FuncInfo]bool
 	overlay     map[string][]byte
 	NonNilElems map[string]bool
+	PureMethods map[string]string // "<iface type text>.<Method>" -> options ("nonnil"): assumed deterministic functions of the receiver
 }
 
 const modPath = "github.com/smarthome-go/homescript/v3"
 
 func loadProg(root string) (*Prog, error) {
-	p := &Prog{Root: root, Pkgs: map[string]*packages.Package{}, Funcs: map[*types.Func]*FuncInfo{}, ByName: map[string]*FuncInfo{}, Reg: NewTypeReg(), impls: map[string][]types.Type{}, recCache: map[*FuncInfo]bool{}, NonNilElems: map[string]bool{}}
+	p := &Prog{Root: root, Pkgs: map[string]*packages.Package{}, Funcs: map[*types.Func]*FuncInfo{}, ByName: map[string]*FuncInfo{}, Reg: NewTypeReg(), impls: map[string][]types.Type{}, recCache: map[*FuncInfo]bool{}, NonNilElems: map[string]bool{}, PureMethods: map[string]string{}}
 	overlay := map[string][]byte{}
 	p.overlay = overlay
 	contractsByDir := map[string][]*Contract{}
@@ -129,6 +130,9 @@ func loadProg(root string) (*Prog, error) {
 				f := strings.Fields(c.Directive)
 				if len(f) == 2 && f[1] == "elems-nonnil" {
 					p.NonNilElems[f[0]] = true
+				}
+				if len(f) >= 2 && f[0] == "assume-pure" {
+					p.PureMethods[f[1]] = strings.Join(f[2:], " ")
 				}
 			}
 		}
